@@ -207,7 +207,8 @@ def check_allocators(prog, rep, rule):
                 rep.violation(rule, loc(mod, fn), fq, 'incoming graph not relabelled from self.start_id',
                               'imported nodes must be relabelled to fresh integers starting at the counter, otherwise their own '
                               'keys collide with stored nodes')
-            adv = [n for n in walk_no_nested(fn) if isinstance(n, ast.Assign) and any(ast.unparse(t) == 'self.start_id' for t in n.targets)]
+            adv = [n for n in walk_no_nested(fn) if isinstance(n, (ast.Assign, ast.AugAssign)) and
+                   any(ast.unparse(t) == 'self.start_id' for t in (n.targets if isinstance(n, ast.Assign) else [n.target]))]
             ins = [n for n in walk_no_nested(fn) if isinstance(n, ast.Call) and isinstance(n.func, ast.Attribute)
                    and ast.unparse(n.func.value) == 'self.graphs' and n.func.attr in ('add_nodes_from', 'add_node', 'add_edges_from', 'add_edge', 'update')]
             if not adv:
